@@ -29,6 +29,8 @@ class Ctx:
         args = []
         if "case" in rp:
             args += ["--case", str(rp["case"])]
+        if rp.get("leg") == "vread":
+            args += ["--vread"]
 
         return args
 
